@@ -8,7 +8,7 @@ Property C16, counting part: the Harary–Palmer table counts connected labelled
                                this is `Qgen_eq_connCount_full` of `Properties/C16.lean`.
 * `Q_eq_connCount_le12`        hence `Q n k = connCount n k` for all `n ≤ 12` (where `Q_eq_Qgen` is a kernel table);
 * `Q_eq_connCount_iff_cayley`  and for all `n`: `Q = connCount` everywhere IFF Cayley's formula holds for `connCount`
-                               (`connCount n (n-1) = n^(n-2)`); Cayley's formula itself is NOT proved.
+                               (`connCount n (n-1) = n^(n-2)`); Cayley's formula itself is proved in `Properties/C16Cayley.lean` (`cayley`).
 Ingredients (`Lemmas/HararyPalmer.lean`): `Qgen_rec` (the memo table computes the recursion), `hp_identity`
 (classification of all graphs by the component of a fixed vertex), `cc_map` (relabelling invariance),
 `conn_card_ge` (a connected graph has at least `n-1` edges, from Mathlib's spanning-tree theorem).
